@@ -840,6 +840,8 @@ def oracle_c01(case, obs):
     for oi, ids in case['layout']:
       rows = obs[oi]['rows']
       for m, mat in rows.items():
+        if len(mat) != len(ids):
+          return f'add() returned {len(mat)} rows of {m} for a batch of {len(ids)} examples'
         for pos, rid in enumerate(ids):
           alone = obs[solo[rid]]['rows'][m][0]
           if not deep_close(mat[pos], alone, rel=1e-9, abs_=1e-12):
@@ -918,17 +920,36 @@ def oracle_c07(case, obs):
 
 # ============================================================================ classification of failing inputs
 
+def _fed(case):
+  """accumulators that have seen at least one example, directly or through merges, at the time of each result op."""
+  fed, starved = set(), False
+  for op in case['prog']:
+    if op[0] == 'new':
+      fed.discard(op[1])
+    elif op[0] == 'add' and len(op[2]) > 0:
+      fed.add(op[1])
+    elif op[0] == 'merge' and op[2] in fed:
+      fed.add(op[1])
+    elif op[0] == 'merge_states' and any(i in fed for i in op[1]):
+      fed.add(op[1][0])
+    elif op[0] == 'result' and op[1] not in fed:
+      starved = True
+  return starved
+
+
 def finding(case, what):
+  """Input classes of the findings of this family (all repaired: ids are informational, nothing is suppressed)."""
   k = case['kind']
   if k == 'topk':
     cfg = case['cfg']
     if cfg['multiclass']:
       return 'F-retr-multiclass'
-    batches = [op[2] for op in case['prog'] if op[0] == 'add'] + [op[1] for op in case['prog'] if op[0] == 'call']
-    if any(len(b) == 0 for b in batches) or any(op[0] == 'result' for op in case['prog'][:2]):
+    batches = [op[2] for op in case['prog'] if op[0] == 'add'] + [op[1] for op in case['prog'] if op[0] == 'call'] + \
+              [op[2] for op in case['prog'] if op[0] == 'fn']
+    if any(len(b) == 0 for b in batches) or _fed(case):
       return 'F-retr-empty-batch'
     lens = {len(r[1]) for b in batches for r in b}
-    if len(lens) > 1 or (cfg['k_list'] and lens and max(cfg['k_list']) > min(lens)):
+    if len(lens) > 1 or 0 in lens or (cfg['k_list'] and lens and max(cfg['k_list']) > min(lens)):
       return 'F4'
     if cfg['k_list'] and list(cfg['k_list']) != sorted(cfg['k_list']):
       return 'F-retr-korder'
@@ -940,7 +961,7 @@ def finding(case, what):
         seen_result.add(op[1])
       elif op[0] in ('add', 'merge') and op[1] in seen_result:
         return 'F-retr-thr-cache'
-    return 'F-retr-thr-fresh'
+    return 'F-retr-thr-fresh' if _fed(case) else None
   if k == 'tuplemean':
     return 'F-retr-tuple-unit'
   return None
@@ -1036,7 +1057,7 @@ def _required(ctx, what):
 
 def _sub(pid, gens, oracle, rule):
   class Sub:
-    LEAN_MODULES = [f'MlModel.Properties.{pid}.Retrieval']
+    LEAN_MODULES = [f'MlModel.Properties.{pid}.Retrieval'] + (['MlModel.Witness.C01Retrieval'] if pid == 'C01' else [])
     RULE = rule
 
   def gen_cases(ctx):
